@@ -29,7 +29,7 @@ def classify(res):
     return by, hits
 
 
-def run_lex(r, prop, n_quick=14, n_thorough=200, use=("lex.bisim", "lex.wfmodes", "lex.run"), family="lexgen"):
+def run_lex(r, prop, n_quick=20, n_thorough=200, use=("lex.bisim", "lex.wfmodes", "lex.run"), family="lexgen"):
     n = n_quick if r.tier == "quick" else n_thorough
     res = r.run_family(family, n=n, timeout=7200)
     by, hits = classify(res)
